@@ -751,6 +751,52 @@ class Check:
         return 0
 
 
+# --------------------------------------------------------------------------- PRNG key terms as z3 datatype terms
+_KEYDT = []
+
+
+def key_datatype():
+    if not _KEYDT:
+        K = z3.Datatype("Key")
+        K.declare("root", ("name", z3.StringSort()))
+        K.declare("split", ("parent", K), ("n", z3.IntSort()), ("idx", z3.IntSort()))
+        K.declare("fold_in", ("fparent", K), ("data", z3.StringSort()))
+        K.declare("seed", ("sval", z3.StringSort()))
+        K.declare("raw", ("w0", z3.StringSort()), ("w1", z3.StringSort()))
+        _KEYDT.append(K.create())
+    return _KEYDT[0]
+
+
+def key_z3(term):
+    K = key_datatype()
+    kind = term[0]
+    if kind == "root":
+        return K.root(z3.StringVal(str(term[1:])))
+    if kind == "split":
+        shape, j = term[2], term[3]
+        return K.split(key_z3(term[1]), int(np.prod(shape, dtype=int)), int(np.ravel_multi_index(tuple(j), tuple(shape))))
+    if kind == "fold_in":
+        return K.fold_in(key_z3(term[1]), z3.StringVal(str(term[2])))
+    if kind == "seed":
+        return K.seed(z3.StringVal(str(term[1])))
+    return K.raw(z3.StringVal(str(term[1])), z3.StringVal(str(term[2])))
+
+
+def colliding_draw_keys(interp, kinds=("normal", "uniform", "gamma", "bits", "shuffle")):
+    """pairs of sampler invocations (every call site of the traced code counts) whose key terms z3
+    cannot prove distinct in the theory of algebraic datatypes"""
+    uniq = [(d["kind"], tuple(d["shape"]), k) for d in interp.draws if d["kind"] in kinds for k in d["keys"]]
+    bad = []
+    for i in range(len(uniq)):
+        for j in range(i):
+            s = z3.Solver()
+            s.set("timeout", 10000)
+            s.add(key_z3(uniq[i][2].term) == key_z3(uniq[j][2].term))
+            if str(s.check()) != "unsat":
+                bad.append((uniq[j], uniq[i]))
+    return bad, len(uniq)
+
+
 def load_known():
     p = os.path.join(VERIF, "known_findings.json")
     if os.path.exists(p):
